@@ -1,0 +1,191 @@
+//go:build verif
+// +build verif
+
+package zenodb
+
+// Verification hooks (build tag "verif"). With the tag off, verif_off.go
+// supplies empty versions of everything in this file and the compiler drops the
+// calls, so behaviour and timing of a normal build are unchanged.
+
+import (
+	"fmt"
+	"os"
+	"strconv"
+	"strings"
+	"sync"
+	"sync/atomic"
+	"syscall"
+	"time"
+
+	"github.com/getlantern/wal"
+	"github.com/getlantern/zenodb/common"
+)
+
+var (
+	verifMx       sync.Mutex
+	verifCounts   = make(map[string]int64)
+	verifHandler  atomic.Value // func(name string, n int64)
+	verifCrashAt  string
+	verifCrashN   int64
+	verifDelays   = make(map[string]time.Duration)
+	verifTimerDiv = int64(1)
+)
+
+func init() {
+	if s := os.Getenv("VERIF_CRASH"); s != "" {
+		parts := strings.SplitN(s, ":", 2)
+		verifCrashAt = parts[0]
+		verifCrashN = 1
+		if len(parts) == 2 {
+			if n, err := strconv.ParseInt(parts[1], 10, 64); err == nil {
+				verifCrashN = n
+			}
+		}
+	}
+	if s := os.Getenv("VERIF_DELAY"); s != "" {
+		for _, item := range strings.Split(s, ",") {
+			parts := strings.SplitN(item, ":", 2)
+			if len(parts) == 2 {
+				if ms, err := strconv.ParseFloat(parts[1], 64); err == nil {
+					verifDelays[parts[0]] = time.Duration(ms * float64(time.Millisecond))
+				}
+			}
+		}
+	}
+	if s := os.Getenv("VERIF_TIMER_DIV"); s != "" {
+		if n, err := strconv.ParseInt(s, 10, 64); err == nil && n > 0 {
+			verifTimerDiv = n
+		}
+	}
+}
+
+// VerifSetHandler installs an in-process handler that is called at every
+// verifPoint with the point's name and its hit count.
+func VerifSetHandler(h func(name string, n int64)) {
+	if h == nil {
+		h = func(string, int64) {}
+	}
+	verifHandler.Store(h)
+}
+
+// VerifCounts returns a copy of the hit counters of all points and events.
+func VerifCounts() map[string]int64 {
+	verifMx.Lock()
+	defer verifMx.Unlock()
+	out := make(map[string]int64, len(verifCounts))
+	for k, v := range verifCounts {
+		out[k] = v
+	}
+	return out
+}
+
+// VerifResetCounts zeroes all counters.
+func VerifResetCounts() {
+	verifMx.Lock()
+	verifCounts = make(map[string]int64)
+	verifMx.Unlock()
+}
+
+// verifPoint is a named crash / delay / observation point.
+func verifPoint(name string) {
+	verifMx.Lock()
+	verifCounts[name]++
+	n := verifCounts[name]
+	verifMx.Unlock()
+	if name == verifCrashAt && n == verifCrashN {
+		fmt.Fprintf(os.Stderr, "\nVERIF-CRASH %s:%d\n", name, n)
+		syscall.Kill(os.Getpid(), syscall.SIGKILL)
+		select {}
+	}
+	if d, ok := verifDelays[name]; ok {
+		time.Sleep(d)
+	}
+	if h, ok := verifHandler.Load().(func(string, int64)); ok && h != nil {
+		h(name, n)
+	}
+}
+
+// verifEvent counts occurrences of name=n (a histogram of n per name).
+func verifEvent(name string, n int) {
+	verifMx.Lock()
+	verifCounts[fmt.Sprintf("%s=%d", name, n)]++
+	verifMx.Unlock()
+}
+
+func verifScale(d time.Duration) time.Duration {
+	d = d / time.Duration(verifTimerDiv)
+	if d <= 0 {
+		d = time.Millisecond
+	}
+	return d
+}
+
+func verifResetTimer(t *time.Timer, d time.Duration) {
+	if verifTimerDiv > 1 {
+		t.Reset(verifScale(d))
+	}
+}
+
+func verifResetTicker(t *time.Ticker, d time.Duration) {
+	if verifTimerDiv > 1 {
+		t.Reset(verifScale(d))
+	}
+}
+
+// verifIdleSleep sleeps for the scaled duration and reports true when timers
+// are scaled (the caller then skips its own unscaled sleep).
+func verifIdleSleep(d time.Duration) bool {
+	if verifTimerDiv > 1 {
+		time.Sleep(verifScale(d))
+		return true
+	}
+	return false
+}
+
+// VerifTableOffsets returns the WAL offsets (by source) up to which the named
+// table's row store has applied its stream, read under the row store's lock.
+func (db *DB) VerifTableOffsets(table string) common.OffsetsBySource {
+	t := db.getTable(table)
+	if t == nil || t.rowStore == nil {
+		return nil
+	}
+	rs := t.rowStore
+	rs.mx.RLock()
+	defer rs.mx.RUnlock()
+	if rs.memStore == nil {
+		return nil
+	}
+	out := make(common.OffsetsBySource, len(rs.memStore.offsetsBySource))
+	for source, offset := range rs.memStore.offsetsBySource {
+		out[source] = append(wal.Offset(nil), offset...)
+	}
+	return out
+}
+
+// VerifStreamEnd returns the offset just past the last valid entry of the
+// named stream's WAL.
+func (db *DB) VerifStreamEnd(stream string) (wal.Offset, error) {
+	db.tablesMutex.RLock()
+	w := db.streams[strings.ToLower(stream)]
+	db.tablesMutex.RUnlock()
+	if w == nil {
+		return nil, fmt.Errorf("no such stream %v", stream)
+	}
+	_, offset, err := w.Latest()
+	return offset, err
+}
+
+// VerifTableFields returns the current field definitions of the named table
+// as strings.
+func (db *DB) VerifTableFields(table string) []string {
+	t := db.getTable(table)
+	if t == nil {
+		return nil
+	}
+	fields := t.getFields()
+	out := make([]string, 0, len(fields))
+	for _, f := range fields {
+		out = append(out, f.String())
+	}
+	return out
+}
